@@ -7,6 +7,7 @@ import AnyVecModel.Proofs.Exec
 import AnyVecModel.Proofs.KernelView
 import AnyVecModel.Proofs.KernelStackAlign
 import AnyVecModel.Proofs.KernelPtrAt
+import AnyVecModel.Props.Refine
 namespace AnyVec
 namespace C12
 open World
@@ -124,6 +125,29 @@ theorem element_pointers_are_the_source (index size : Nat) (known : Bool) :
     Gen.Kernel.element_ptr_at_off index size known = index * size ∧
     Gen.Kernel.element_mut_ptr_at_off index size known = index * size :=
   KernelTie.element_ptr_at_tie index size known
+
+/-! ### the views of a vector that shows an abstract vector (Props/Refine.lean) -/
+
+/-- **the views expose exactly the abstract vector**: in any world in which vector `v` shows the abstract items and
+capacity `s` - any fault-free reachable world after any history of the refinement does - `as_bytes` / the typed slice
+cover exactly `|items|` elements from the storage pointer, the spare views start right behind them and cover exactly
+`capacity − |items|` element slots, ending at the end of the storage. -/
+theorem views_show_the_abstract_vector {bg : Nat → Option VecSt} (v ty : Nat) (w : World) (s : Refine.Spec)
+    (h : Refine.Rel bg v ty w s) :
+    ∃ d, w.vecs[v]? = some d ∧
+      d.asBytes = (0, s.items.length * d.size) ∧ d.typedSlice = (0, s.items.length) ∧
+      d.spareBytes = (s.items.length * d.size, (s.cap - s.items.length) * d.size) ∧
+      d.spareCapacity = (s.items.length * d.size, s.cap - s.items.length) ∧
+      s.items.length ≤ s.cap := by
+  obtain ⟨hinv, _, ⟨d, hv, _, _, habs, hcp, _⟩, _, _⟩ := h
+  have hg := hinv.good v d hv
+  have hlen := Refine.abs_len hg.wf habs
+  have hlc := hg.wf.len_le_cap
+  refine ⟨d, hv, ?_, ?_, ?_, ?_, by omega⟩
+  · simp [VecSt.asBytes, hlen]
+  · simp [VecSt.typedSlice, hlen]
+  · simp [VecSt.spareBytes, hlen, hcp]
+  · simp [VecSt.spareCapacity, hlen, hcp]
 
 end C12
 end AnyVec
